@@ -52,7 +52,11 @@ structure SubOK (P : PCtx) (f : Nat) (sd : SubDef) : Prop where
   s256 : ∀ s ∈ spillSlots sd, s < 256
   sset : ∀ x, x ∈ sd.locals ↔ x ∈ spillSlots sd
 
-def ProgOK (P : PCtx) : Prop := ∀ f sd, findSub P.p f = some sd → SubOK P f sd
+/-- routine `f` has a graph in the program (a certificate holds the reachable routines only) -/
+def Present (P : PCtx) (f : Nat) : Prop := (P.Pg.subs.lookup (subLabel f)).isSome = true
+
+/-- every declared routine *that has a graph* has the properties `SubOK` -/
+def ProgOK (P : PCtx) : Prop := ∀ f sd, findSub P.p f = some sd → Present P f → SubOK P f sd
 
 /-- a routine of the program: its machine context, generator configuration, typing context and
     the `cur` field of the source environment -/
@@ -81,6 +85,11 @@ theorem RoutOK.callees {P : PCtx} {X cfg K cur} (h : RoutOK P X cfg K cur) : cfg
 
 theorem RoutOK.kcallees {P : PCtx} {X cfg K cur} (h : RoutOK P X cfg K cur) : K.callees = calleesOf P.p := by
   cases h <;> rfl
+
+/-- every call block of a routine of the program calls a routine that has a graph -/
+def CallPresent (P : PCtx) : Prop :=
+  ∀ X cfg K cur, RoutOK P X cfg K cur → ∀ f ce cb k, cfg.callees.find? (·.id == f) = some ce →
+    Blk X.G cb (callOps cfg f ce) (.next k) → Present P f
 
 def All (P : PCtx) (fuel : Nat) : Prop :=
   ∀ X cfg K cur, RoutOK P X cfg K cur → AllX X cfg K ⟨P.cx, P.p, cur⟩ fuel
@@ -220,12 +229,12 @@ theorem bodyRes_of_goal {cx : Ctx} {X Xf : MCtx} {cb i bs kk : Nat} {σ' : List 
     exact this
 
 theorem callee_run {P : PCtx} {fuel : Nat} (hP : ProgOK P) (ihAll : All P fuel) {X : MCtx} (hXP : X.Pg = P.Pg)
-    {f : Nat} {sd : SubDef} (hsd : findSub P.p f = some sd)
+    {f : Nat} {sd : SubDef} (hsd : findSub P.p f = some sd) (hpres : Present P f)
     {cb i : Nat} {blk : Block} (hbk : X.G[cb]? = some blk) (hx : blk.ops[i]? = some (.callsub (subLabel f)))
     {st σ' : List Val} {ic bcs} {w1 : World} (hlen : st.length = sd.params.length)
     {r3 : Res} {w3 : World} (hev : eval ⟨P.cx, P.p, some f⟩ fuel sd.body (bindW sd st w1) = (r3, w3)) :
     CalleeGoal P.cx X cb i st σ' ic bcs w1 sd.hasRet r3 w3 := by
-  have hS := hP f sd hsd
+  have hS := hP f sd hsd hpres
   obtain ⟨G, sf, bs, hl, hpro, hsh⟩ := hS.look
   rw [← hXP] at hl
   let fr : GFrame := { ret := X.r, pt := ⟨cb, i + 1⟩, height := (st ++ σ').length }
@@ -309,7 +318,7 @@ def FrameProvider (P : PCtx) : Prop :=
     cfg.callees.find? (·.id == f) = some ce → Blk X.G cb (callOps cfg f ce) (.next k) → st.length = ce.nArgs →
     CallFrame P.cx X cb k f (if ce.hasRet then 1 else 0) (srcLocals P.p cur f) st σ ic bcs w1
 
-theorem case_call {P : PCtx} {fuel : Nat} (hP : ProgOK P) (hF : FrameProvider P) (ihAll : All P fuel)
+theorem case_call {P : PCtx} {fuel : Nat} (hP : ProgOK P) (hC : CallPresent P) (hF : FrameProvider P) (ihAll : All P fuel)
     {X : MCtx} {cfg : RCfg} {K : RK} {cur : Option Nat} (hR : RoutOK P X cfg K cur)
     (ih : AllX X cfg K ⟨P.cx, P.p, cur⟩ fuel)
     {f args ce s cb k L bc rc n σ ic bcs w r w'}
@@ -343,7 +352,8 @@ theorem case_call {P : PCtx} {fuel : Nat} (hP : ProgOK P) (hF : FrameProvider P)
         hF X cfg K cur hR f ce cb k st σ ic bcs w1 hf hb (by omega)
       simp only [List.length_reverse, hlen', ne_eq, not_true_eq_false, if_false] at h
       rcases hbody : eval ⟨P.cx, P.p, some f⟩ fuel sd.body (bindW sd st w1) with ⟨r3, w3⟩
-      have cg := callee_run (σ' := rest) (ic := ic) (bcs := bcs) hP ihAll hR.pg hsd hbk hx hlen' hbody
+      have cg := callee_run (σ' := rest) (ic := ic) (bcs := bcs) hP ihAll hR.pg hsd
+        (hC X cfg K cur hR f ce cb k hf hb) hbk hx hlen' hbody
       have hbody' := hbody
       simp only [bindW] at hbody'
       rw [hbody'] at h
@@ -397,7 +407,7 @@ theorem case_call {P : PCtx} {fuel : Nat} (hP : ProgOK P) (hF : FrameProvider P)
 
 /-- **Semantic half for whole programs.**  Every routine graph of the program matches `Src.eval`
     (all five mutually recursive evaluators, all routines, all call stacks). -/
-theorem sound_all {P : PCtx} (hP : ProgOK P) (hF : FrameProvider P) : ∀ fuel, All P fuel := by
+theorem sound_all {P : PCtx} (hP : ProgOK P) (hC : CallPresent P) (hF : FrameProvider P) : ∀ fuel, All P fuel := by
   intro fuel
   induction fuel using Nat.strongRecOn with
   | _ fuel ih =>
@@ -413,7 +423,7 @@ theorem sound_all {P : PCtx} (hP : ProgOK P) (hF : FrameProvider P) : ∀ fuel, 
         ev := fun e s k L bc rc n σ ic bcs w r w' hs hw h =>
           step_ev hR.kind hR.mark hR.fp ihs
             (fun f' args ce s cb k L bc rc n σ ic bcs w r w' hf hb ha hw h =>
-              case_call hP hF ihAll hR ihf hf hb ha hw h) hs hw h
+              case_call hP hC hF ihAll hR ihf hf hb ha hw h) hs hw h
         args := fun es s k L acc σ ic bcs w r w' ha hw h => step_args ihf ha hw h
         seq := fun es s k L bc rc n σ ic bcs w r w' hs hw h => step_seq ihf hs hw h
         cond := fun arms s endB errB L bc rc n σ ic bcs w r w' hs herr hw h => step_cond ihf hs herr hw h
